@@ -6,6 +6,7 @@ import random
 LITS = ['a', 'b', 'A', 'B', 'ab', 'x', '.', '..', 'é', 'ǅ', 'ß', 'K', 'k', '1', 'a.b', 'x.txt', '-', 'a-b', 'ꙮ', ' ', 'i', '!']
 ESC_LITS = ['\\*', '\\?', '\\[', '\\{', '\\,', '\\(', '\\)', '\\<', '\\:', '\\$', 'a\\*b']
 CLASSES = ['[ab]', '[!a]', '[a-c]', '[a]', '[!ab]', '[A-Z]', '[a-a]', '[/]', '[a/]', '[!/]', '[\\-]', '[é]', '[a\\]]',
+           '[+-0]', '[ -~]', '[#-z]', '[.-0]', '[!+-0]', '[!-9]', '[,-9a]',
            '[b-a]', '[---]', '[a-]', '[!]', '[]]', '[!b-a]', '[!z-a]', '[xb-a]', '[!xz-a/]']
 BOUNDS = ['', ':', ':0,1', ':1', ':2', ':1,2', ':0,2', ':1,', ':0,', ':2,3', ':3', ':0,3', ':2,']
 ODD_BOUNDS = [':0,0', ':2,1', ':0', ':65536', ':4294967296', ':18446744073709551616', ':1,18446744073709551615', ':4294967295,']
@@ -35,7 +36,7 @@ class ExprGen:
                 return r.choice(LITS), False
             return r.choice(['*', '*', '$']), True
         if x < 0.72:
-            return r.choice(CLASSES[:13] if r.random() > self.wild else CLASSES), False
+            return r.choice(CLASSES[:20] if r.random() > self.wild else CLASSES), False
         if depth >= self.maxdepth:
             return r.choice(LITS), False
         if x < 0.87:
@@ -186,7 +187,9 @@ def sample_path(t, rng, first=True, last=True):
         if not t['archs']:
             return ''
         if t['neg']:
-            return rng.choice(['z', 'Z', '0', 'é'])
+            return rng.choice(['z', 'Z', '0', 'é', '/'])
+        if rng.random() < 0.35 and any((len(a) == 1 and a[0] == 47) or (len(a) == 2 and min(a) <= 47 <= max(a)) for a in t['archs']):
+            return '/'      # a class never matches the separator, also when a range spans it
         a = rng.choice(t['archs'])
         c = a[0] if len(a) == 1 else rng.randint(min(a), max(a[0], a[1])) if a[0] <= a[1] else a[0]
         try:
